@@ -6,7 +6,7 @@
    comma-joined join values are k, in left-file order; right_out o L r = what the nested-loop reading of the property
    statement prescribes for right record r: its pairs (compose l r, left-file order), or nothing under --np, or, when
    it matches nothing / has no key, its unpaired form under --ur. *)
-From Miller Require Import Base.Bytes Base.Record C13.Model C13.Proofs C13.ProofsSorted C13.Order C13.ProofsMerge C13.ProofsKeyless C13.ProofsCompose C13.ProofsOnce C13.ProofsGenuine.
+From Miller Require Import Base.Bytes Base.Record C13.Model C13.Proofs C13.ProofsSorted C13.Order C13.ProofsMerge C13.ProofsKeyless C13.ProofsCompose C13.ProofsOnce C13.ProofsGenuine C13.ProofsOrder.
 From Coq Require Import Sorted.
 From Coq Require Import Permutation.
 
@@ -55,6 +55,20 @@ Theorem C13_left_unpaired_exactly_the_unmatched :
     /\ Permutation tail_src (filter (fun l => negb (matched o right l)) (lefts o left)).
 Proof. exact join_unsorted_left_tail. Qed.
 Print Assumptions C13_left_unpaired_exactly_the_unmatched.
+
+(* ... and their exact ORDER (all eight --np/--ul/--ur combinations; for --ul false the part is empty, theorem 1): after the
+   right stream's output come the left records of every bucket that no right record hit, bucket by bucket in
+   first-appearance order of the bucket keys in the left file and in left-file order within a bucket, then the key-less
+   left records in left-file order.  (Not plain left-file order: leftBucketsByJoinFieldValues is an ordered map.) *)
+Theorem C13_unsorted_exact_emit_order :
+  forall o left right, ul o = true ->
+    join_unsorted o left right =
+      flat_map (right_out o (lefts o left)) right
+      ++ map (unpaired_left o)
+           (flat_map (fun k => if hit o right k then [] else lefts_for o k (lefts o left)) (bucket_keys o (lefts o left))
+            ++ filter (lacks_key o) (lefts o left)).
+Proof. exact join_unsorted_exact_order. Qed.
+Print Assumptions C13_unsorted_exact_emit_order.
 
 (* unpaired records (--ul / --ur) are the input record unchanged apart from the renaming of its join fields to the output
    names and the side prefix on the other fields: same values, same order (when the renamed names stay distinct) *)
